@@ -498,11 +498,7 @@ func (f *frame) loadLoc(l *Loc, h Heap) string {
 		key := "G_" + mangle(l.global.Pkg.Pkg.Name()+"."+l.global.Name())
 		if e.E.globalIsStable(l.global) {
 			// written only by its package initialiser: one fixed (unknown) value
-			if e.stableGlobals == nil {
-				e.stableGlobals = map[string]bool{}
-			}
-			e.stableGlobals[key] = true
-			return e.R.heapConst(key, e.R.sortOf(l.elemT))
+			return e.stableGlobalTerm(l.global, key, l.elemT)
 		}
 		t := e.heapGet(h, key, e.R.sortOf(l.elemT))
 		if facts := e.globalFieldFacts(l.global, t); len(facts) > 0 {
